@@ -403,8 +403,10 @@ func (stub *stub) Start(ctx context.Context) (retErr error) {
 		return fmt.Errorf("failed to multiplex ttrpc client connection: %w", err)
 	}
 
+	closedC := make(chan struct{})
 	clientOpts := []ttrpc.ClientOpts{
 		ttrpc.WithOnClose(func() {
+			close(closedC)
 			stub.connClosed()
 		}),
 	}
@@ -436,8 +438,15 @@ func (stub *stub) Start(ctx context.Context) (retErr error) {
 		return err
 	}
 
-	if err = <-stub.cfgErrC; err != nil {
-		return err
+	// wait for getting configured, unless the connection is lost after
+	// registration, before the runtime gets to configure us
+	select {
+	case err = <-stub.cfgErrC:
+		if err != nil {
+			return err
+		}
+	case <-closedC:
+		return fmt.Errorf("connection to NRI/Runtime lost before getting configured")
 	}
 
 	log.Infof(ctx, "Started plugin %s...", stub.Name())
